@@ -715,6 +715,27 @@ func assignFromCall(n *node) {
 	}
 }
 
+// assignMapEntry returns the action of an assignment from a multi-valued expression, built on
+// gen, where the destination dest is a map entry. The action gen sets the value at the location
+// of dest in the frame, which is not in the map: the entry is then set in the map.
+func assignMapEntry(gen bltnGenerator, dest *node) bltnGenerator {
+	return func(n *node) {
+		gen(n)
+		exec := n.exec
+		mvalue := genValue(dest.child[0])
+		kvalue := genValue(dest.child[1])
+		if isInterfaceSrc(dest.child[1].typ) {
+			kvalue = genValueInterface(dest.child[1])
+		}
+		value := genValue(dest)
+		n.exec = func(f *frame) bltn {
+			next := exec(f)
+			mvalue(f).SetMapIndex(kvalue(f), value(f))
+			return next
+		}
+	}
+}
+
 func assign(n *node) {
 	next := getExec(n.tnext)
 	dvalue := make([]func(*frame) reflect.Value, n.nleft)
